@@ -304,23 +304,57 @@ class SimpleJSONRPCDispatcher(SimpleXMLRPCDispatcher, object):
                 # Compute the string representation of the dictionary/list
                 try:
                     return jsonrpclib.jdumps(response, self.encoding)
-                except (TypeError, ValueError, RuntimeError) as ex:
-                    # The response can't be converted to JSON (e.g. the
-                    # request ID was loaded as a bean, or the result is too
-                    # deeply nested for the encoder): return a fault
-                    fault = Fault(
-                        -32603,
-                        "{0}:{1}".format(type(ex).__name__, ex),
-                        config=self.json_config,
-                    )
-                    _logger.error("Error marshaling response: %s", fault)
-                    return fault.response()
+                except (TypeError, ValueError, RuntimeError):
+                    # A response can't be converted to JSON (e.g. the
+                    # request ID was loaded as a bean, the result holds
+                    # something the encoder rejects or is too deeply
+                    # nested): replace it, and only it, by a fault
+                    if isinstance(response, utils.ListType):
+                        response = [
+                            self._marshalable_response(entry)
+                            for entry in response
+                        ]
+                    else:
+                        response = self._marshalable_response(response)
+
+                    return jsonrpclib.jdumps(response, self.encoding)
             else:
                 # No result (notification)
                 return ""
         except NoMulticallResult:
             # Return an empty string (jsonrpclib internal behaviour)
             return ""
+
+    def _marshalable_response(self, response):
+        """
+        Returns the given response dictionary if it can be converted to JSON,
+        else the dictionary of a fault answering the same request, in the same
+        JSON-RPC version
+
+        :param response: A JSON-RPC response dictionary
+        :return: A JSON-RPC response dictionary which can be marshaled
+        """
+        try:
+            jsonrpclib.jdumps(response, self.encoding)
+            return response
+        except (TypeError, ValueError, RuntimeError) as ex:
+            fault = Fault(
+                -32603,
+                "{0}:{1}".format(type(ex).__name__, ex),
+                config=self.json_config,
+            )
+            _logger.error("Error marshaling response: %s", fault)
+
+        version = 2.0 if "jsonrpc" in response else 1.0
+        try:
+            # Keep the ID of the request, if it can be marshaled
+            fault.rpcid = response.get("id")
+            result = fault.dump(version=version)
+            jsonrpclib.jdumps(result, self.encoding)
+            return result
+        except (TypeError, ValueError, RuntimeError):
+            fault.rpcid = None
+            return fault.dump(version=version)
 
     def _marshaled_single_dispatch(self, request, dispatch_method=None):
         """
